@@ -64,4 +64,10 @@ def rx2DefaultFreq : String → Nat
   | "US915" | "AU915" => 923300000
   | r => 923200000 - as923OffsetHz r
 
+/-- RP002 maximum EIRP of a region in whole dBm (EU433: 12.15 dBm, i.e. 10 dBm ERP, rounded down) -/
+def maxEirpDbm : String → Int
+  | "EU868" | "AS923_1" | "AS923_2" | "AS923_3" | "AS923_4" => 16
+  | "EU433" => 12
+  | _ => 30
+
 end Spec.Regional
